@@ -74,3 +74,4 @@ Example C03_nonvacuous :
   = Some ["a.m."; "b.m."; ""]
   /\ Forall (fun f => pfx f = "") fs.
 Proof. split; [vm_compute; reflexivity | repeat constructor]. Qed.
+Print Assumptions C03_nonvacuous.
